@@ -245,6 +245,26 @@ func init() {
 				Bounds: "the same with A getting key 0"},
 		}})
 
+	bjob := func(fn, name string, params map[string]int64, reach []string, bounds string) Job {
+		return Job{Pkg: "./handlers/memcached/batched", Func: fn, Name: name, Params: params, Reach: reach, Bounds: bounds}
+	}
+	batchedAssumptions := append([]string{
+		"the pool is built from the real conn / relay / Handler types with the real batcher, reader and recoveryMonitor goroutines; the unix socket is replaced by an in-memory connection with socket semantics (a read with nothing pending blocks) onto the in-process memcached model (A6); newConn's dial and the relay's monitor goroutine (pool growth) are not executed",
+		"A12: time.After fires when its receiver has nothing else to do; goroutines are scheduled run-until-block (one legal schedule per path; the interleaving of callers is not explored exhaustively); math/rand: connection pick = environment choice, opaque base = fixed rotation of representative values, back-off jitter 0",
+		"pool of one connection, batch size 1 and 2; requests of two callers travel in one batch (batch size 2)",
+	}, stdAssumptions...)
+	reg(Check{ID: "C06", Level: "model_checking", Assumptions: batchedAssumptions,
+		Quick: []Job{
+			bjob("ZZBatchedStep", "", nil, []string{"step-done"}, "one command (set add replace append prepend delete touch gat get gete; gets of 1-2 keys incl. duplicates, symbolic quiet flags and opaques) through the pool and over a direct std connection from equal arbitrary backend states (2 keys): same outcome, data, flags, remaining TTL, same backend state"),
+			bjob("ZZBatchedTwoCallers", "", nil, []string{"both-done"}, "two callers at once, their requests in one batch (A: any command on keys 0-1 incl. 2-key gets, B: any command on key 2): each receives what it would receive alone"),
+		}})
+	reg(Check{ID: "C13", Level: "model_checking", Assumptions: append([]string{
+		"connection loss = the backend closes the pooled connection before / after / inside (5 cut positions) the reply to request 0..2 of the connection; reconnect() dials the (substituted) socket at once; back-off timing, refused reconnects and kernel-level detection of idle cuts are outside the claim",
+		"commands: get / gete of 1-3 keys over 2 keys (duplicates, every quiet pattern), set, touch with relative TTL (the transparent retry is at-least-once by design: non-idempotent commands are outside the bound)",
+	}, batchedAssumptions...),
+		Quick: []Job{bjob("ZZBatchedConnLoss", "", nil, []string{"call-returned", "connection-was-cut", "pool-serves-again"}, "one caller, pool of one connection, batch size 1: exactly one outcome per call -- an error, or every requested key answered exactly once with its own data after the transparent retry; afterwards the pool serves a further get correctly")},
+		Thorough: []Job{bjob("ZZBatchedConnLoss", "connloss-batch2", map[string]int64{"batchsize": 2, "faultpositions": 4}, []string{"call-returned", "connection-was-cut", "pool-serves-again"}, "batch size 2, fault index 0..3")}})
+
 	reg(Check{ID: "C11", Level: "model_checking", Assumptions: append([]string{
 		"binary: the 24 header bytes are fully symbolic (magic fixed to 0x80 in quick, symbolic in thorough); consistent frames declare at most 23 body bytes (so no second header fits in the stream), contradictory frames (total < key+extras) are all covered; the client sends min(total,23) arbitrary body bytes and then waits",
 		"allocation judged on the engine's allocation log: every make() between the start and the end of the connection loop, symbolic sizes asserted against 128 + (total - extras if consistent else 0) before they are concretised",
